@@ -126,6 +126,10 @@ class Gen:
             b = mkB(g, r.randrange(2), tp, pty, r.randrange(32))
             c = r.randrange(65536)
             d = r.randrange(65536)
+        if (b >> 11) & 1 and r.random() < 0.5:
+            # version B groups repeat the PI in block C' (that is what a broadcast looks like); keep the
+            # other half arbitrary
+            c = a if r.random() < 0.8 else r.choice(self.pis)
         return (a, b, c, d)
 
     def parse_line(self, kind=None, errs=None):
